@@ -289,7 +289,7 @@ Proof. exact served_unless_runtime_reason. Qed.
     [tr_request_schema] / [tr_request_doc] build C04's schema and document for a whole request and
     [c04_document_accepts] runs C04's ValidateDocument model on them.
 
-    FULL STATEMENT (C05_C04_accepts_implies_static_ok):
+    FULL STATEMENT (proved in round 6, see C05_C04_accepts_implies_static_ok below):
       forall E dt site dname argdefs defs args, bridgeable E = true ->
         c04_document_accepts E site dname argdefs defs args = true ->
         static_ok all_fixed E dt site argdefs defs args = true
@@ -308,15 +308,10 @@ Proof. exact served_unless_runtime_reason. Qed.
       ([static_ok_arguments_values], [C05_static_ok_split]).
     - validateVariables' two pure functions are the same on both sides
       ([C05_C04_types_compatible], [C05_C04_variable_usage]).
-    NOT PROVED, the exact gap: (a) [float_leaves_agree]; (b) that C04's NewTypeInfo ([pti_doc])
-    annotates each argument value with the declared argument type, each variable default with the
-    variable's type and each variable usage nested in a literal with the expected type and
-    location default that C05's [usage_ok] propagates, and C04's [inspect] traversal of the
-    translated document reaching exactly these nodes - i.e. the step from
-    [c04_document_accepts = true] to the node-level premises, and with it the four
-    validateVariables conjuncts.  Both are evaluated on every case by the check: [bridge_agrees] on
-    every literal and [c04_document_accepts = static_ok] on every bridgeable request (68 030 of
-    88 526 quick cases, 0 disagreements, both directions). *)
+    NOT PROVED, the exact gap: [float_leaves_agree] only (the document level, (b) in earlier
+    rounds, is proved in round 6: C05_C04_accepts_implies_static_ok below).  The check still
+    evaluates [bridge_agrees] on every literal and [c04_document_accepts = static_ok] on every
+    bridgeable request (both directions; the theorem is the forward one). *)
 Theorem C05_C04_coercion_bridge_partial : forall E dt, bridgeable E = true ->
   (no_float E = true \/ float_leaves_agree dt) ->
   forall l t a, c04_accepts E l t a = validate_coercion E dt l t a.
@@ -367,31 +362,47 @@ Theorem C05_C04_variable_usage : forall E (def : vardef) (d' : Ast.vardef) loc l
   = var_usage_ok E def loc ld.
 Proof. exact variable_usage_tr. Qed.
 
-(** ** round 5: through C04's pipeline (uses C04's interface lemmas on NewTypeInfo, [rule_values_eq],
-    [rule_variables_fine], [validate_memo_iff_parsed]).
-    PROVED: from the verdict of C04's whole ValidateDocument model on the translated request
-    (field site) to the two validateVariables conjuncts about the definitions
-    ([C05_C04_document_variable_definitions]: memo -> plain pipeline -> every rule silent on the
-    annotated document [pti_doc] -> the variables rule -> C05's conjuncts); the usage walk
-    ([C05_C04_usage_bridge]: C04's [usage_errs] on the annotated argument value, silent, gives
-    C05's [usage_ok], nested lists and objects included); the values rule on one annotated value
-    ([C05_C04_annotated_value_validates]) through the coercion bridge over the request schema
-    ([C05_C04_coercion_bridge_closed]: any schema agreeing with [tr_env E] on E's names, closed
-    types).  [n_Query] and [n_Res] (the result scalar of f and g) are names reserved for the
-    bridge.
-    NOT PROVED, what is left of C05_C04_accepts_implies_static_ok: picking the per-node facts out
-    of C04's flat_map over the concrete annotated tree for the arguments / values / usages rules
-    (the node is there: [annotated]; the membership bookkeeping is not written), the "every
-    variable is used" conjunct, and the directive site (same argument through [ti_dir]).  The
-    verdict equality [c04_document_accepts = static_ok] stays evaluated on every case. *)
-Theorem C05_C04_document_variable_definitions : forall E argdefs defs args,
-  ahas n_Query E = false ->
+(** ** C05_C04_accepts_implies_static_ok (round 6: one theorem).  If C04's whole ValidateDocument
+    model ([validate_model_memo repaired id_order]: NewTypeInfo and all eight rule groups) accepts
+    the translated request - [tr_request_schema] / [tr_request_doc]:  query Q(defs) { f(args) }
+    ([sf = true]) or  query Q(defs) { g @dname(args) }  ([sf = false], dname one of flt / skip /
+    include) - then C05's [static_ok] holds for the request, all nine conjuncts (validateArguments,
+    validateValues, validateVariables incl. nested usages and "every variable is used").
+    Premises: [n_Query] and [n_Res] (the result scalar of f and g) are names reserved for the
+    bridge (not in E, no variable of type Res_); E and the argument types are closed
+    ([env_closed], [sty_closed]: true of schemas built from Go pointers, checked per case);
+    [leaves_agree]: the two models agree on scalar leaves - proved for Int, ID, String, Boolean and
+    the kind-level custom scalar ([leaves_agree_bridgeable]), a hypothesis for Float
+    ([float_leaves_agree]) and, until C04's SRefined is used, excluded for DateTime / LongInt
+    ([bridgeable]); the second form below states it with these.
+    Proof: memo -> plain pipeline ([C04 validate_memo_iff_parsed]) -> every rule silent on the
+    annotated document ([validate_model_nil], [all_rules_nil]; [annotated] computes [pti_doc] for
+    both sites) -> per rule, the node picked out of C04's flat_map over the concrete tree
+    ([args_rule_node], [vals_args], [vals_defaults], [body_flat]) -> the node-level bridges
+    ([node_conjuncts], [bridge_closed], [usage_bridge], [var_fn_value], [value_no_spread]).
+    C14's [C14_usage_from_c04] (coq/Cost/CostC04Usage.v) proves the usage step over [tr_env E]; the
+    document level needs it over the request schema, which [C05_C04_usage_bridge] provides. *)
+Theorem C05_C04_accepts_implies_static_ok : forall E dt sf dname argdefs defs args,
+  ahas n_Query E = false -> ahas n_Res E = false ->
+  env_closed E = true ->
+  (forall ad, In ad argdefs -> sty_closed E (in_type (snd ad)) = true) ->
+  leaves_agree E dt ->
   (forall def, In def defs -> leaf_name (vd_type def) <> n_Res) ->
-  ValidatorModel.validate_model_memo ValidatorModel.repaired ValidatorModel.id_order
-    (tr_request_schema E true argdefs) [] (tr_request_doc None defs args) = Ast.Done [] ->
-  has_dup (map vd_name defs) = false /\
-  (forall def, In def defs -> type_known E (vd_type def) = true).
-Proof. exact field_site_variable_definitions. Qed.
+  In dname dir_names ->
+  c04_document_accepts E sf (if sf then None else Some dname) argdefs defs args = true ->
+  static_ok all_fixed E dt sf argdefs defs args = true.
+Proof. exact accepts_implies_static_ok. Qed.
+
+Theorem C05_C04_accepts_implies_static_ok_bridgeable : forall E dt sf dname argdefs defs args,
+  ahas n_Query E = false -> ahas n_Res E = false ->
+  env_closed E = true ->
+  (forall ad, In ad argdefs -> sty_closed E (in_type (snd ad)) = true) ->
+  bridgeable E = true -> (no_float E = true \/ float_leaves_agree dt) ->
+  (forall def, In def defs -> leaf_name (vd_type def) <> n_Res) ->
+  In dname dir_names ->
+  c04_document_accepts E sf (if sf then None else Some dname) argdefs defs args = true ->
+  static_ok all_fixed E dt sf argdefs defs args = true.
+Proof. exact accepts_implies_static_ok_bridgeable. Qed.
 
 Theorem C05_C04_usage_bridge : forall E dt sf argdefs defs,
   (forall def, In def defs -> type_known E (vd_type def) = true) ->
@@ -413,13 +424,21 @@ Theorem C05_C04_coercion_bridge_closed : forall E dt (S : Ast.schema),
   end = validate_coercion E dt l t a.
 Proof. exact bridge_closed. Qed.
 
-Theorem C05_C04_annotated_value_validates : forall E dt argdefs,
-  env_closed E = true -> leaves_agree E dt ->
-  forall l t dd, sty_closed E t = true ->
-  ProofsValues.val_f ValidatorModel.id_order (tr_request_schema E true argdefs)
-    (Inspect.NValue (TypeInfoModel.ti_value true (tr_request_schema E true argdefs) (Some (tr_sty t)) dd (tr_lit l))) = [] ->
-  validate_coercion E dt l t true = true.
-Proof. exact annotated_value_validates. Qed.
+(** ** DateTime and LongInt through C04's refined scalars ([Ast.SRefined], [tr_scalar_r]):
+    LongInt is SRefined (Some [KInt]) (PIntRange (-(2^53-1)) (2^53-1)), DateTime is
+    SRefined (Some [KString]) (PStringIn (the case's RFC 3339 table)).  The refined images agree
+    with C05's literal coercers on every literal - the leaf step [bridgeable] stood for.  The
+    check runs the refined translation ([tr_env_r], [tr_request_schema_r]) for every case, at the
+    literal and at the document level.  Not yet done: carrying the bridge theorems above over from
+    [tr_env] (kept, because C14 builds on it) to [tr_env_r]; with these two leaves it is the same
+    proof. *)
+Theorem C05_C04_longint_leaf : forall dt l, (forall v, l <> LVar v) -> l <> LNull ->
+  ValidatorModel.scalar_accepts (tr_scalar_r dt KLongInt) (tr_lit l) = match scalar_literal dt KLongInt l with Some _ => true | None => false end.
+Proof. exact longint_leaf. Qed.
+
+Theorem C05_C04_datetime_leaf : forall dt l, (forall v, l <> LVar v) -> l <> LNull ->
+  ValidatorModel.scalar_accepts (tr_scalar_r dt KDateTime) (tr_lit l) = match scalar_literal dt KDateTime l with Some _ => true | None => false end.
+Proof. exact datetime_leaf. Qed.
 
 (** the repaired defects: the same statements are false of the code as found *)
 Theorem C05_args_conform_refuted_before_fix :
@@ -479,10 +498,12 @@ Print Assumptions C05_C04_accepts_implies_static_ok_partial.
 Print Assumptions C05_static_ok_split.
 Print Assumptions C05_C04_types_compatible.
 Print Assumptions C05_C04_variable_usage.
-Print Assumptions C05_C04_document_variable_definitions.
+Print Assumptions C05_C04_accepts_implies_static_ok.
+Print Assumptions C05_C04_longint_leaf.
+Print Assumptions C05_C04_datetime_leaf.
+Print Assumptions C05_C04_accepts_implies_static_ok_bridgeable.
 Print Assumptions C05_C04_usage_bridge.
 Print Assumptions C05_C04_coercion_bridge_closed.
-Print Assumptions C05_C04_annotated_value_validates.
 Print Assumptions C05_route_independent.
 Print Assumptions C05_integer_literal_is_exact_float.
 Print Assumptions C05_validator_types_differ_in_non_null_only.
